@@ -73,3 +73,6 @@ def run(repo, res, tier):
     # one reader, one grammar: a parser built from a decoder alone lexes with that decoder's grammar
     from .. import hookrules as _hk17
     _hk17.rule_ctor_default(repo, res)
+    # a bare string stays one token when a long statement is wrapped: textwrap may break at white space only
+    from .. import encrules as _enc17
+    _enc17.rule_w1(repo, res, which=("flags",))
